@@ -22,6 +22,9 @@
 (*                    three switches on (count + 1, boundary of the limit, *)
 (*                    query kept when last)                                *)
 (*   SwitchesOffIsSpec KsAnswerV with every switch off is KsAnswer         *)
+(*   ExactLaws        the exact-overlap relation of Part 4 is symmetric,   *)
+(*                    holds for equal and reverse-complementary pairs, and *)
+(*                    such pairs share every k-mer of the query            *)
 (* Export: the answer (and, filtered by each m, the number of matches)     *)
 (* under every combination of switches, fewest first.                      *)
 (***************************************************************************)
@@ -134,6 +137,15 @@ CodeIsAllSwitches ==
 
 SwitchesOffIsSpec ==
   done => \A rank \in KsPerms : KsAnswerV(res.qk, res.rbags, mo, self, rank, KsSpecDv) = res.ans
+
+ExactLaws ==
+  done => \A i \in 1..NR :
+            LET e == KsExact(q, refs[i])  f == KsExact(refs[i], q)
+            IN /\ e.where = f.where /\ e.len = f.len /\ e.rev = f.rev
+               /\ (refs[i] = q /\ KmerRevCompSeq(q) # q) => e = [where |-> "end", rev |-> 0, len |-> Len(q)]
+               /\ (refs[i] = KmerRevCompSeq(q) /\ refs[i] # q) => e = [where |-> "end", rev |-> 1, len |-> Len(q)]
+               /\ (e.where # "none" /\ Len(q) = Len(refs[i]) /\ PlainSeq(q) /\ PlainSeq(refs[i]) /\ Len(q) >= k)
+                     => KsCount(res.qk, res.rbags, i, -1) >= Len(res.qk)
 
 ---------------------------------------------------------------------------
 (* export: under each combination of switches (fewest first, equal values merged), the answer of Query and the *)
